@@ -1221,7 +1221,7 @@ func (x *ctx) form1(name string, call ssa.CallInstruction, infos map[*ssa.Functi
 // makes the selection indefinite; so does a test made on another mesh value or
 // outside the loop.
 func selectFn(v ssa.Value, at ssa.Instruction, mesh ssa.Value, val func(hasPred) (bool, bool)) (*ssa.Function, string, string) {
-	e := &selEnv{val: val, mesh: mesh, carried: map[*ssa.BasicBlock]bool{}, inLoop: map[*ssa.BasicBlock]bool{}}
+	e := &selEnv{val: val, mesh: mesh, carried: map[*ssa.BasicBlock]bool{}, inLoop: map[*ssa.BasicBlock]bool{}, bind: map[*ssa.Parameter]ssa.Value{}}
 	for _, l := range ssau.Loops(at.Parent()) {
 		if l.Blocks[at.Block()] {
 			e.carried[l.Header] = true
@@ -1247,8 +1247,10 @@ func meshOfCall(call ssa.CallInstruction) ssa.Value {
 type selEnv struct {
 	val     func(hasPred) (bool, bool)
 	mesh    ssa.Value
-	carried map[*ssa.BasicBlock]bool // headers of the loops around the call
-	inLoop  map[*ssa.BasicBlock]bool // blocks of the outermost such loop
+	carried map[*ssa.BasicBlock]bool     // headers of the loops around the call
+	inLoop  map[*ssa.BasicBlock]bool     // blocks of the outermost such loop
+	bind    map[*ssa.Parameter]ssa.Value // parameters of the selection helper(s) being evaluated → caller's values
+	frames  []*ssa.Function              // selection helpers being evaluated
 	why     string
 	viol    string
 }
@@ -1274,6 +1276,50 @@ func (e *selEnv) fn(v ssa.Value, depth int) (*ssa.Function, string) {
 		}
 	case *ssa.ChangeType:
 		return e.fn(t.X, depth+1)
+	case *ssa.Call:
+		// selection extracted into a helper of this package: decide which return it
+		// takes under the assignment, its parameters bound to the caller's arguments
+		g := t.Call.StaticCallee()
+		if g == nil || g.Blocks == nil || t.Parent() == nil || g.Pkg != t.Parent().Pkg || g.Signature.Results().Len() != 1 {
+			return nil, "the face writer is the result of a call that is not a helper of this package returning one function"
+		}
+		if len(e.frames) == 0 && len(e.inLoop) > 0 && !e.inLoop[t.Block()] {
+			e.viol = "the face writer is selected by a call evaluated outside the mesh loop: it does not describe the mesh being written"
+			return nil, e.viol
+		}
+		for _, fr := range e.frames {
+			if fr == g {
+				return nil, "recursive selection helper"
+			}
+		}
+		saved := e.bind
+		nb := map[*ssa.Parameter]ssa.Value{}
+		for k, v := range saved {
+			nb[k] = v
+		}
+		for i, p := range g.Params {
+			if a := callArg(t, i); a != nil {
+				nb[p] = e.resolve(a)
+			}
+		}
+		e.bind = nb
+		e.frames = append(e.frames, g)
+		ret := e.walkReturn(g, depth)
+		var fn *ssa.Function
+		why := "which return of " + shortFn(g) + " is taken is not decided by m.Has*Attribute(const) tests"
+		if e.why != "" {
+			why = e.why
+		}
+		if ret != nil {
+			fn, why = e.fn(ret.Results[0], depth+1)
+		}
+		e.frames = e.frames[:len(e.frames)-1]
+		e.bind = saved
+		return fn, why
+	case *ssa.Parameter:
+		if a, ok := e.bind[t]; ok {
+			return e.fn(a, depth+1)
+		}
 	case *ssa.Phi:
 		if e.loopCarried(t, "the face writer") {
 			return nil, e.viol
@@ -1304,13 +1350,22 @@ func (e *selEnv) boolean(v ssa.Value, depth int) (bool, bool) {
 			b, ok := e.boolean(t.X, depth+1)
 			return !b, ok
 		}
+	case *ssa.Parameter:
+		if a, ok := e.bind[t]; ok {
+			// a hoisted predicate handed to the selection helper: evaluate it where the caller computed it
+			saved, frames := e.bind, e.frames
+			e.bind, e.frames = map[*ssa.Parameter]ssa.Value{}, nil
+			b, ok := e.boolean(a, depth+1)
+			e.bind, e.frames = saved, frames
+			return b, ok
+		}
 	case *ssa.Call:
 		if h, ok := hasCall(t); ok {
-			if len(e.inLoop) > 0 && !e.inLoop[t.Block()] {
+			if len(e.frames) == 0 && len(e.inLoop) > 0 && !e.inLoop[t.Block()] {
 				e.viol = "an attribute test that decides the face writer is evaluated outside the mesh loop: it does not describe the mesh being written"
 				return false, false
 			}
-			if e.mesh != nil && !sameMesh(t.Call.Args[0], e.mesh) {
+			if e.mesh != nil && !sameMesh(e.resolve(t.Call.Args[0]), e.mesh) {
 				e.viol = "an attribute test that decides the face writer is made on a different mesh value than the one whose faces are written"
 				return false, false
 			}
@@ -1328,6 +1383,63 @@ func (e *selEnv) boolean(v ssa.Value, depth int) (bool, bool) {
 	}
 	e.why = "a condition other than m.Has*Attribute(const) decides the selection"
 	return false, false
+}
+
+// resolve maps a value of a selection helper to the caller's value it is bound
+// to: a parameter, or the by-value spill / copy of one.
+func (e *selEnv) resolve(v ssa.Value) ssa.Value {
+	for d := 0; d < 6; d++ {
+		switch t := v.(type) {
+		case *ssa.Parameter:
+			if a, ok := e.bind[t]; ok {
+				return a
+			}
+			return v
+		case *ssa.UnOp:
+			if ld, ok := isLoad(t); ok {
+				if a, ok := ld.X.(*ssa.Alloc); ok {
+					if p, ok := paramSpill(a); ok {
+						v = p
+						continue
+					}
+				}
+			}
+			return v
+		default:
+			return v
+		}
+	}
+	return v
+}
+
+// walkReturn follows the decided branches of helper g from its entry to the
+// return it takes.
+func (e *selEnv) walkReturn(g *ssa.Function, depth int) *ssa.Return {
+	cur := g.Blocks[0]
+	for steps := 0; steps < 64; steps++ {
+		switch l := cur.Instrs[len(cur.Instrs)-1].(type) {
+		case *ssa.Return:
+			if len(l.Results) != 1 {
+				return nil
+			}
+			return l
+		case *ssa.Jump:
+			cur = cur.Succs[0]
+		case *ssa.If:
+			tv, ok := e.boolean(l.Cond, depth+1)
+			if !ok {
+				return nil
+			}
+			if tv {
+				cur = cur.Succs[0]
+			} else {
+				cur = cur.Succs[1]
+			}
+		default:
+			return nil
+		}
+	}
+	return nil
 }
 
 // walkTo follows the decided branches from b's immediate dominator and returns
